@@ -68,7 +68,7 @@ RULE = (
     'answered exactly once, secret fresh, cipher and threshold applied from '
     'the right frame on in both directions, play state proven by traffic '
     'incl. frames of T-1, T, T+1 bytes): first login = every sequence of '
-    'length <= 2 over {E("srv1"), C(64), C(256), P(1), P(300)} (28) '
+    'length <= 2 over {E("srv1"), C(64), C(256), P(1), P(2^31+300)} (28) '
     'terminated by success, disconnect or the server closing the '
     'connection; the first use ends and the second starts in one of 9 ways: '
     'after success [user disconnect() then connect() | server play-state '
@@ -153,7 +153,7 @@ PROBE_MAX_T = 70000
 RETRY_KA = 88
 # family R2 (two complete uses of one Connection object)
 R2_STEPS = (('E', 'srv1'), ('C', 64), ('C', 256), ('P', 1, b''),
-            ('P', 300, b''))
+            ('P', 2 ** 31 + 300, b''))     # (a 5-byte id with bit 31 set)
 R2_ENDS = ((('success',), 'user'), (('success',), 'kick'),
            (('success',), 'eof-user'), (('success',), 'eof-handler'),
            (('success',), 'garbage-handler'),
